@@ -65,15 +65,6 @@ type stepDiffs struct {
 	findings                            []string
 }
 
-func (d stepDiffs) first() string {
-	for _, s := range append([]string{d.batch, d.tree, d.get, d.shadow, d.freshLoad}, d.findings...) {
-		if s != "" {
-			return s
-		}
-	}
-	return ""
-}
-
 // applyOp executes an operation that a fresh value replays.
 func applyOp(ms *yang.Modules, op Op) error {
 	switch op.Op {
